@@ -395,6 +395,15 @@ def _cmp_case(vals, acc):
 
 
 def _marshal_case(vals, acc):
+    tz = vals[2] if len(vals) > 2 else 'UTC0'
+    set_tz(tz)
+    try:
+        _marshal_case_in_tz(vals[:2], acc, tz)
+    finally:
+        set_tz('UTC0')
+
+
+def _marshal_case_in_tz(vals, acc, tz):
     from oslo_utils import timeutils
     import iso8601
     inst, tzk = vals
@@ -412,8 +421,8 @@ def _marshal_case(vals, acc):
     except Exception as e:
         back, ok = ('raises', type(e).__name__), False
     if not ok:
-        acc.fail('marshall-roundtrip:%s' % tzk, {'input': repr(dt), 'got': repr(back)},
-                 {'marshal': [inst.isoformat(), tzk]})
+        acc.fail('marshall-roundtrip:%s' % tzk, {'input': repr(dt), 'got': repr(back), 'TZ': tz},
+                 {'marshal': [inst.isoformat(), tzk, tz]})
         return
     # unmarshalling reads its argument: a second call on the same dict agrees
     snapshot = dict(m)
@@ -469,8 +478,8 @@ def run(ctx):
     E.run(rep, 'comparisons', [TZS if ctx.thorough else TZS[:2], CMP_NOWS if ctx.thorough else CMP_NOWS[:2],
                                ds, MARGINS, FORMS], _cmp_case)
     E.run(rep, 'huge-ages', [HUGE, FORMS], _huge_case)
-    E.run(rep, 'marshalling', [INSTANTS + [DT(2015, 6, 30, 23, 59, 59, 1)],
-                               ['naive', 'utc', 'iso8601', 'zoneinfo']], _marshal_case)
+    E.run(rep, 'marshalling', [INSTANTS + [DT(2015, 6, 30, 23, 59, 59, 1), DT(2024, 7, 1, 12, 30)],
+                               ['naive', 'utc', 'iso8601', 'zoneinfo'], TZS + ['JST-9']], _marshal_case)
     rep.sample({'clock_history': [['set', 6], ['adv_seconds', 6], ['adv_seconds', 6]],
                 'meaning': 'override 1970-01-01T00:00:01.5, advance -1 s twice, query after each'})
     rep.sample({'is_older_than': {'now': '2000-02-29T23:59:59.999999', 'age_s': 60.5,
@@ -511,8 +520,9 @@ def replay(payload):
         iso, d, s, form, tz = payload['cmp']
         _cmp_case((tz, DT.fromisoformat(iso), d, s, form), acc)
     else:
-        iso, tzk = payload['marshal']
-        _marshal_case((DT.fromisoformat(iso), tzk), acc)
+        iso, tzk = payload['marshal'][:2]
+        tz = payload['marshal'][2] if len(payload['marshal']) > 2 else 'UTC0'
+        _marshal_case((DT.fromisoformat(iso), tzk, tz), acc)
     timeutils.clear_time_override()
     return {'violates': bool(acc.fails), 'problems': acc.fails}
 
